@@ -78,6 +78,9 @@ def issuanceOp : List String → Option String
   | ["c09.refuse", sizes, ns, de] => do
       let sz ← parseNatCsv sizes; let n ← optNats ns; let d ← optNats de
       pure (if prepareAccepts sz n d then "accepted" else "refused")
+  | ["spec.c09.refusal", sizes, ns, de, outcome] => do
+      let sz ← parseNatCsv sizes; let n ← optNats ns; let d ← optNats de
+      pure (toString (refusalOk sz n d (outcome == "refused")))
   | ["spec.c09.auth", alg, docType, dalg, prot, x5got, x5want, payload, retMso, sigp, validity, verifies] => do
       let a ← alg.toInt?; let dt ← bytesOfHex docType
       let p ← bytesOfHex prot; let g ← bytesOfHex x5got; let w ← bytesOfHex x5want
